@@ -17,7 +17,11 @@ reply (every TLV lookup is an `Option`; missing, duplicated, truncated fields in
 * `reject_maps_to_auth`     MRP / Companion: any other reply ⇒ AuthenticationError, no keys.
 * `reject_airplay`          AirPlay (`verify_connection`, no error mapping): any other reply ⇒
                             an exception of one of six listed classes, no keys.
-* `accept_installs_keys`    converse (non-vacuity of the above): a proving reply is accepted.
+* `bad_ack_rejected`        MRP / Companion (repaired tree): an M4 reply that is malformed,
+                            carries an Error item or a SeqNo other than 4 ⇒ AuthenticationError,
+                            no keys — even after a proving M2.
+* `accept_installs_keys`    converse (non-vacuity of the above): a proving reply that is
+                            acknowledged is accepted.
 * `enable_only_after_verify` in the sequence of actions `enable_encryption` happens at most
                             once, last, after M3 was sent, with the keys of `keys_only_if_verified`.
 * `trusted_only_if_signed`, `unsigned_reply_rejected`  the property's wording under an explicit
@@ -34,8 +38,10 @@ variable (C : Crypto) (t : Transport) (cr : Creds) (cl : Client) (r : Reply)
     keys were installed then the reply's pairing data parsed (`outer`), carried a session key
     `pub` and ciphertext `enc`; `enc` opened under HKDF(X25519(own_priv, pub)) with nonce
     "PV-Msg02" to a TLV whose Identifier is exactly the stored `atv_id` and whose Signature
-    verifies under the stored `ltpk` over `pub ‖ atv_id ‖ own_pub`; and the installed keys are
-    the transport's HKDF outputs over that same shared secret. -/
+    verifies under the stored `ltpk` over `pub ‖ atv_id ‖ own_pub`; the installed keys are
+    the transport's HKDF outputs over that same shared secret; M2 carried no Error item; and the
+    exchange of M3 returned an M4 reply which — on MRP and Companion — parsed, carried no Error
+    item and SeqNo = 4 (AirPlay's `verify_credentials` does not look at M4). -/
 theorem keys_only_if_verified (k : Bytes × Bytes) (h : (connect C t cr cl r).keys = some k) :
     ∃ outer pub enc shared plain tlv sig,
       getPairingData t r.pd = .ok outer ∧
@@ -47,27 +53,32 @@ theorem keys_only_if_verified (k : Bytes × Bytes) (h : (connect C t cr cl r).ke
       tlv.lookup tagIdentifier = some cr.atvId ∧
       tlv.lookup tagSignature = some sig ∧
       C.edVerify cr.ltpk (pub ++ cr.atvId ++ cl.ownPub) sig = true ∧
-      k = transportKeys C t shared := by
+      k = transportKeys C t shared ∧
+      outer.lookup tagError = none ∧
+      ∃ pd4, r.m4 = .reply pd4 ∧
+        (t ≠ .airplay → ∃ tlv4, getPairingData t pd4 = .ok tlv4 ∧
+          tlv4.lookup tagError = none ∧ tlv4.lookup tagSeqNo = some [4]) := by
   unfold connect at h
   split at h
   · simp at h
   · rename_i tr shared hv
     have hv2 : (verifyCredentials C t cr cl r).2 = .ok shared := by rw [hv]
-    obtain ⟨_, pub, enc, ⟨outer, h1, h2, h3⟩, hx, plain, tlv, sig, h4, h5, h6, h7, _, h9⟩ :=
+    obtain ⟨hack, pub, enc, ⟨outer, h1, h2, h3⟩, hx, plain, tlv, sig, h4, h5, h6, h7, _, h9⟩ :=
       verifyCredentials_ok hv2
     simp only [Option.some.injEq] at h
-    exact ⟨outer, pub, enc, shared, plain, tlv, sig, h1, h2, h3, hx, h4, h5, h6, h7, h9, h.symm⟩
+    exact ⟨outer, pub, enc, shared, plain, tlv, sig, h1, h2, h3, hx, h4, h5, h6, h7, h9, h.symm,
+      getPairingData_ok_no_error h1, hack⟩
 
 /-- the same, through the declarative predicate used by the other theorems -/
 theorem keys_only_if_accepted (k : Bytes × Bytes) (h : (connect C t cr cl r).keys = some k) :
-    Accepted C t cr cl r := by
+    Accepted C t cr cl r ∧ AckOk t r := by
   unfold connect at h
   split at h
   · simp at h
   · rename_i tr shared hv
     have hv2 : (verifyCredentials C t cr cl r).2 = .ok shared := by rw [hv]
-    obtain ⟨_, pub, enc, hc, hp⟩ := verifyCredentials_ok hv2
-    exact ⟨pub, enc, shared, hc, hp⟩
+    obtain ⟨hack, pub, enc, hc, hp⟩ := verifyCredentials_ok hv2
+    exact ⟨⟨pub, enc, shared, hc, hp⟩, hack⟩
 
 /-- **C06, "succeeds — and encryption is switched on".**  Keys are installed iff the connect
     call returned; a failed connect leaves the connection without keys. -/
@@ -114,12 +125,36 @@ theorem reject_airplay (h : ¬ Accepted C .airplay cr cl r) :
     obtain ⟨_, pub, enc, hc, hp⟩ := verifyCredentials_ok hv2
     exact absurd ⟨pub, enc, shared, hc, hp⟩ h
 
-/-- **C06, converse.**  A reply that proves the paired identity is accepted (given that the
-    client can sign M3 and the M3 exchange returns): connect returns and installs the keys
+/-- **C06, M4 acknowledgement (MRP, Companion; repaired tree).**  Even after an M2 that proves
+    the paired identity: if the M4 reply does not parse, carries an Error item or has a SeqNo
+    other than 4, the connect call raises `AuthenticationError` and installs no keys. -/
+theorem bad_ack_rejected (ht : t ≠ .airplay) (pd4 : Pd) (hm : r.m4 = .reply pd4)
+    (hbad : ¬ ∃ tlv4, getPairingData t pd4 = .ok tlv4 ∧
+      tlv4.lookup tagError = none ∧ tlv4.lookup tagSeqNo = some [4]) :
+    (connect C t cr cl r).result = .error .AuthenticationError ∧
+      (connect C t cr cl r).keys = none := by
+  unfold connect
+  split
+  · rename_i tr e hv
+    have hv2 : (verifyCredentials C t cr cl r).2 = .error e := by rw [hv]
+    rcases verifyCredentials_err hv2 with ⟨_, _, h3⟩ | ⟨hr, _⟩
+    · refine ⟨?_, rfl⟩
+      have := h3 ht
+      cases t <;> simp_all [mapErr]
+    · rw [hm] at hr; cases hr
+  · rename_i tr shared hv
+    have hv2 : (verifyCredentials C t cr cl r).2 = .ok shared := by rw [hv]
+    obtain ⟨⟨pd4', hm', hck⟩, _⟩ := verifyCredentials_ok hv2
+    rw [hm] at hm'
+    cases hm'
+    exact absurd (hck ht) hbad
+
+/-- **C06, converse.**  A reply that proves the paired identity and is acknowledged (M4) is
+    accepted (given that the client can sign M3): connect returns and installs the keys
     derived from the session's shared secret. -/
 theorem accept_installs_keys (pub enc shared dsig : Bytes)
     (hc : Carries t r.pd pub enc) (hp : Proves C cr cl pub enc shared)
-    (hs : C.edSign cr.ltsk (cl.ownPub ++ cr.clientId ++ pub) = some dsig) (hm : r.m4 = none) :
+    (hs : C.edSign cr.ltsk (cl.ownPub ++ cr.clientId ++ pub) = some dsig) (hm : AckOk t r) :
     (connect C t cr cl r).result = .ok () ∧
       (connect C t cr cl r).keys = some (transportKeys C t shared) := by
   obtain ⟨outer, h1, h2, h3⟩ := hc
@@ -132,7 +167,8 @@ theorem accept_installs_keys (pub enc shared dsig : Bytes)
     · rename_i tr sh m3 hv'
       rw [hv'] at hv
       simp only [Except.ok.injEq, Prod.mk.injEq] at hv
-      rw [hm]; simp [hv.1]
+      obtain ⟨pd4, hm4, hck⟩ := hm
+      rw [hm4]; dsimp only; rw [checkM4_complete hck]; simp [hv.1]
   unfold connect
   split
   · rename_i hv'; rw [hv'] at this; simp at this
@@ -201,7 +237,7 @@ theorem trusted_only_if_signed (signedBy : Bytes → Bytes → Prop)
       readTlv plain = some tlv ∧
       tlv.lookup tagIdentifier = some cr.atvId ∧
       signedBy cr.ltpk (pub ++ cr.atvId ++ cl.ownPub) := by
-  obtain ⟨outer, pub, enc, shared, plain, tlv, sig, h1, h2, h3, h4, h5, h6, h7, _, h9, _⟩ :=
+  obtain ⟨outer, pub, enc, shared, plain, tlv, sig, h1, h2, h3, h4, h5, h6, h7, _, h9, _, _, _⟩ :=
     keys_only_if_verified C t cr cl r k h
   exact ⟨outer, pub, enc, shared, plain, tlv, h1, h2, h3, h4, h5, h6, h7, hUF _ _ h9⟩
 
@@ -221,7 +257,7 @@ theorem unsigned_reply_rejected (signedBy : Bytes → Bytes → Prop)
   constructor
   · cases hk : (connect C t cr cl r).keys with
     | none => rfl
-    | some k => exact absurd (keys_only_if_accepted C t cr cl r k hk) hna
+    | some k => exact absurd (keys_only_if_accepted C t cr cl r k hk).1 hna
   · intro ht
     exact (reject_maps_to_auth C t cr cl r ht hna).1
 
@@ -249,7 +285,7 @@ def exReply (k : UInt8) (ident : Bytes) : Reply :=
   let enc := symCrypto.aeadSeal (symCrypto.hkdf pvSalt pvInfo shared) msg02
     (writeTlv [(tagIdentifier, ident), (tagSignature, sig)])
   { pd := .bytes (writeTlv [(tagSeqNo, [2]), (tagPublicKey, exPub), (tagEncryptedData, enc)]),
-    m4 := none }
+    m4 := .reply (.bytes (writeTlv [(tagSeqNo, [4])])) }
 
 /-- the honest reply (right key, right identifier) installs keys on every transport … -/
 example : ∀ t, ((connect symCrypto t exCreds exClient (exReply 7 exCreds.atvId)).keys.isSome
@@ -258,10 +294,21 @@ example : ∀ t, ((connect symCrypto t exCreds exClient (exReply 7 exCreds.atvId
 
 /-- … so `Accepted` (hypothesis of `accept_installs_keys`, negated in the reject theorems) is
     satisfiable by a multi-fragment reply (the ciphertext spans two TLV fragments) … -/
-example : Accepted symCrypto .mrp exCreds exClient (exReply 7 exCreds.atvId) :=
+example : Accepted symCrypto .mrp exCreds exClient (exReply 7 exCreds.atvId) ∧
+    AckOk .mrp (exReply 7 exCreds.atvId) :=
   keys_only_if_accepted _ _ _ _ _ _
     (Option.get_mem (by decide +kernel :
       (connect symCrypto .mrp exCreds exClient (exReply 7 exCreds.atvId)).keys.isSome = true))
+
+/-- … the hypothesis of `bad_ack_rejected` is met by the honest M2 followed by an M4 carrying
+    an Error item, or SeqNo 5: no keys on MRP and Companion, while AirPlay (which ignores M4)
+    still accepts. -/
+example :
+    let bad (pd4 : Bytes) : Reply := { (exReply 7 exCreds.atvId) with m4 := .reply (.bytes pd4) }
+    (connect symCrypto .mrp exCreds exClient (bad (writeTlv [(tagSeqNo, [4]), (tagError, [2])]))).keys = none ∧
+    (connect symCrypto .companion exCreds exClient (bad (writeTlv [(tagSeqNo, [5])]))).keys = none ∧
+    (connect symCrypto .airplay exCreds exClient (bad (writeTlv [(tagSeqNo, [5])]))).keys.isSome = true := by
+  decide +kernel
 
 /-- … a valid signature by a different key, and the right key over another identifier, are
     not accepted (hypothesis of `reject_maps_to_auth` / `reject_airplay` is met non-trivially:
@@ -276,7 +323,9 @@ example : ¬ Accepted symCrypto .companion exCreds exClient (exReply 8 exCreds.a
   have hs : symCrypto.edSign exCreds.ltsk (exClient.ownPub ++ exCreds.clientId ++ pub)
       = some (symSig (symPub exCreds.ltsk) (exClient.ownPub ++ exCreds.clientId ++ pub)) := by
     simp [symCrypto, exCreds]
-  have hk := (accept_installs_keys symCrypto .companion exCreds exClient _ pub enc shared _ hc hp hs rfl).2
+  have hack : AckOk .companion (exReply 8 exCreds.atvId) :=
+    ⟨_, rfl, fun _ => ⟨[(tagSeqNo, [4])], by rfl, by decide +kernel, by decide +kernel⟩⟩
+  have hk := (accept_installs_keys symCrypto .companion exCreds exClient _ pub enc shared _ hc hp hs hack).2
   have hn : (connect symCrypto .companion exCreds exClient (exReply 8 exCreds.atvId)).keys = none := by
     decide +kernel
   rw [hn] at hk
